@@ -502,10 +502,40 @@ func (vc *VC) selectPath(st *State, base Term, recv types.Type, path []int) Term
 				vc.assert(st, vc.oblName("nil", f.Name()), "safety", token.NoPos, "."+f.Name(), Not(Eq(cur, IntLit(0))))
 			}
 		}
+		vc.monitorReadCheck(st, cur, t, f)
 		cur = vc.readField(st, cur, t, f)
 		t = f.Type()
 	}
 	return cur
+}
+
+// monitorReadCheck: a field protected by a monitor is read by the code only while the mutex is
+// held (otherwise the value read may be another thread's half-finished update, and nothing the
+// contract says about it between Lock and Unlock holds any more). Objects allocated by this
+// activation are exempt (constructors).
+func (vc *VC) monitorReadCheck(st *State, base Term, rt types.Type, f *types.Var) {
+	tc := vc.prog.DB.Types[typeName(rt)]
+	if tc == nil || len(tc.Monitors) == 0 || vc.inSpec > 0 {
+		return
+	}
+	for _, ms := range tc.Monitors {
+		for _, p := range ms.Protects {
+			if p != f.Name() {
+				continue
+			}
+			held, ok := st.heap["gl$$held$"+ms.Mutex]
+			if !ok {
+				held = TFalse
+			}
+			fresh := app(SBool, ">", base, Term{"alloc$base", SInt})
+			name := fmt.Sprintf("%s#lock-read[%s]", vc.fn.Key, f.Name())
+			vc.oblCount[name]++
+			if n := vc.oblCount[name]; n > 1 {
+				name += fmt.Sprintf("#%d", n)
+			}
+			vc.assert(st, name, "lock", token.NoPos, "read of "+f.Name()+" requires "+ms.Mutex+" held", Or(held, fresh))
+		}
+	}
 }
 
 func (vc *VC) evalUnary(st *State, e *ast.UnaryExpr) Term {
